@@ -6,6 +6,7 @@ import (
 	"encoding/json"
 	"fmt"
 	"hash/fnv"
+	"math"
 	"os"
 	"path/filepath"
 	"runtime"
@@ -30,6 +31,7 @@ type c19Cfg struct {
 	Bound   int
 	Partial bool // readers only: the shared buffer's last frame is partly filled (C-1 samples appended after 5 frames)
 	Frames  int  // frames of the shared buffer (0: 6)
+	Grown   bool // readers only: the shared buffer was grown by Append (to a capacity the runtime chose) and nothing has asked for its capacity before the readers start
 	Pooled  bool // the shared buffer is a recycled pool buffer (previous owner grew it, then Put): length 3 frames, the writers' ranges lie in its spare capacity
 	// Mode != "": the all-instantiations harness: two threads convert with instantiation (Src, Dst);
 	// "readers": one shared source, private destinations; "writers": private sources into two
@@ -104,6 +106,23 @@ func (h *c19H) Init() {
 			h.parent.SetSample(i, dyn.Tok(h.t, tk(int64(1+i))))
 		}
 		h.roEnd = 3
+		for i := range h.obs {
+			h.obs[i], h.step[i], h.fails[i] = 14695981039346656037, 0, nil
+		}
+		return
+	}
+	if h.cfg.Grown {
+		// Alloc of one frame, then Append of the rest: the storage moves and the runtime picks the capacity
+		h.parent = dyn.Alloc(h.t, al(C, 1, 1))
+		rest := dyn.Alloc(h.t, al(C, c19Frames-1, c19Frames-1))
+		for i := 0; i < C; i++ {
+			h.parent.SetSample(i, dyn.Tok(h.t, tk(int64(1+i))))
+		}
+		for i := 0; i < rest.Len(); i++ {
+			rest.SetSample(i, dyn.Tok(h.t, tk(int64(1+C+i))))
+		}
+		h.parent.Append(rest)
+		h.roEnd = c19Frames
 		for i := range h.obs {
 			h.obs[i], h.step[i], h.fails[i] = 14695981039346656037, 0, nil
 		}
@@ -204,6 +223,11 @@ func (h *c19H) reader(id int) {
 			if !h.cfg.Partial {
 				s2 := p.Slice(full, p.Capacity()) // up to the capacity: only its shape is looked at
 				h.mix(id, uint64(s2.Len()), uint64(s2.Cap()))
+			} else {
+				// windows that start before the partly filled last frame and end behind it
+				s3 := p.Slice(0, p.Length())
+				s4 := p.Slice(full-1, p.Capacity())
+				h.mix(id, uint64(s3.Len()), uint64(s3.Cap()), uint64(s4.Len()), uint64(s4.Cap()))
 			}
 			for i := 0; i < s.Len(); i++ {
 				h.mix(id, s.Sample(i).B)
@@ -384,6 +408,16 @@ func c19Configs(tier string, race bool) []c19Cfg {
 		}
 	}
 	all := []int{0, 1, 2}
+	addGrown := func(bound int) {
+		for _, tc := range []struct {
+			t string
+			C int
+		}{{"float64", 3}, {"int8", 3}, {"int16", 5}} {
+			for m := 0; m < 3; m++ {
+				r = append(r, c19Cfg{T: tc.t, C: tc.C, R: 2, W: 0, Menu: m, Bound: bound, Grown: true, Frames: 5})
+			}
+		}
+	}
 	addPartial := func(R, bound int) {
 		for _, t := range types {
 			for _, C := range []int{2, 3} {
@@ -414,6 +448,7 @@ func c19Configs(tier string, race bool) []c19Cfg {
 		if tier == "thorough" {
 			add(2, 0, -1, all, []int{1, 2})
 			addPartial(2, -1)
+			addGrown(3)
 			addPartial(3, 2)
 			add(3, 0, 3, all, []int{2})
 			add(1, 1, -1, all, []int{1, 2})
@@ -423,6 +458,7 @@ func c19Configs(tier string, race bool) []c19Cfg {
 		} else {
 			add(2, 0, 2, all, []int{2})
 			addPartial(2, 2)
+			addGrown(2)
 			add(1, 1, 2, all, []int{1, 2})
 			add(2, 2, 2, all, []int{2})
 			add(1, 2, 2, all, []int{1})
@@ -431,6 +467,7 @@ func c19Configs(tier string, race bool) []c19Cfg {
 	}
 	add(2, 0, -1, all, []int{1, 2})
 	addPartial(2, -1)
+	addGrown(-1)
 	addWide(2, -1)
 	addPooled(-1)
 	add(3, 0, -1, all, []int{2})
@@ -479,6 +516,9 @@ func (h *c19InstH) Init() {
 			x = -x
 		}
 		h.shared.SetSample(i, dyn.Tok(t, x))
+		if i == 4 && dyn.Types[t].Kind == dyn.Float {
+			h.shared.SetSample(i, dyn.F(math.NaN())) // (its own result is unspecified but deterministic)
+		}
 	}
 	h.obs = [2]uint64{14695981039346656037, 14695981039346656037}
 }
